@@ -14,7 +14,7 @@ package mqtt
 //@   ensures[C04,C05,C20] same_fields: result.Topic == m.Topic && result.QoS == m.QoS && result.Retain == m.Retain && result.Dup == m.Dup && result.ID == m.ID
 //@   ensures[C04,C05,C20] same_payload: seqEq(seqOf(result.Payload), seqOf(m.Payload))
 //@   ensures[C20] len(m.Payload) > 0 ==> fresh(result.Payload)
-//@   ensures[C20] !sameArray(result.Payload, m.Payload) || len(m.Payload) == 0
+//@   ensures[C20] own_array: !sameArray(result.Payload, m.Payload)
 
 //@ func (*BaseClient).newID
 //@   mode bv
